@@ -502,6 +502,45 @@ func (d *detRun) deliverGroup(route detRouter, ctx sdk.Context, msgs []detMsg, f
 	}
 }
 
+// simulateBlock: what a node does that is asked to estimate the gas of the block's transactions before they are
+// included (the Simulate query of the tx service; signatures are not verified in simulations, so anybody can ask
+// for any message list, authority messages included): every transaction runs through the same handlers on a
+// branch of the node's CHECK state, and the branch is thrown away. Whether a node served such queries is not
+// part of the chain: a replica that did must agree with one that did not. Returns the number of handler runs.
+func simulateBlock(checkCtx sdk.Context, route detRouter, msgs []detMsg, decode func(m *detMsg) sdk.Msg) (n int) {
+	for i := 0; i < len(msgs); {
+		j := i + 1
+		for msgs[i].tx != 0 && j < len(msgs) && msgs[j].tx == msgs[i].tx {
+			j++
+		}
+		sctx, _ := checkCtx.CacheContext()
+		sctx = sctx.WithGasMeter(sdk.NewInfiniteGasMeter())
+		for k := i; k < j; k++ {
+			msg := decode(&msgs[k])
+			h := route(msg)
+			if h == nil || msg.ValidateBasic() != nil {
+				break
+			}
+			failed := false
+			func() {
+				defer func() {
+					if r := recover(); r != nil {
+						failed = true
+					}
+				}()
+				_, err := h(sctx, msg)
+				failed = err != nil
+			}()
+			n++
+			if failed {
+				break
+			}
+		}
+		i = j
+	}
+	return n
+}
+
 func (d *detRun) failMsg(m *detMsg, i int, err error, gas uint64, _ string) {
 	space, code, _ := sdkerrors.ABCIInfo(err, false)
 	d.fail[m.label]++
